@@ -452,7 +452,7 @@ func (v *fnVC) reachNow() *T {
 }
 
 func (v *fnVC) exFor(cur, old *State, extra map[string]*T) *Ex {
-	x := &Ex{enc: v.e, w: v.w, pkg: v.fn.Pkg.Pkg, vars: map[string]*T{}, lets: map[string]string{}, cur: cur, old: old}
+	x := &Ex{enc: v.e, w: v.w, pkg: v.fn.Pkg.Pkg, vars: map[string]*T{}, lets: map[string]string{}, cur: cur, old: old, clos: v.root().closures}
 	for k, t := range v.params {
 		x.vars[k] = t
 		if strings.Contains(k, "$") {
